@@ -233,3 +233,5 @@ func SendEnv(ctx context.Context, t lime.Transport, e *Env) error {
 
 // EncodedLen is the number of bytes the TCP transport writes for e (JSON plus newline).
 func EncodedLen(e *Env) int { return len(e.Canon) + 1 }
+
+func tcpAddr(port int) *net.TCPAddr { return &net.TCPAddr{IP: net.IPv4(127, 0, 0, 1), Port: port} }
